@@ -34,5 +34,6 @@ fn run(r: &mut Run) -> Result<(), MachineryError> {
     reps::char_pair_space(r, "C02/representative-pairs", M_C02, vec![Alg::FirstFit])?;
     escape_scan_space(r, "C02/escape-grammar-scan", M_C02, vec![Alg::FirstFit])?;
     word_seq_space(r, "C02/word-sequences", M_C02, vec![Alg::FirstFit])?;
+    word_seq_long_space(r, "C02/word-sequences-medium", M_C02, vec![Alg::FirstFit])?;
     scale::text_scale(r, "C02/long-paragraphs", "C02")
 }
